@@ -161,14 +161,14 @@ func (p Ether) AppendPayload(payload []byte) (Ether, error) {
 	if len(payload)+14 > cap(p) { //must be enough capacity to store header + payload
 		return nil, ErrPayloadTooBig
 	}
-	copy(p.Payload()[:cap(payload)], payload)
+	copy(p[:cap(p)][14:14+len(payload)], payload)
 
 	// An Ethernet frame has a minimum size of 60 bytes because anything that is shorter is interpreted
 	// by receiving station as a frame resulting from a collision. This len was chosen to occupy the whole
 	// distance of 1500 meters so the whole cable is occupied and collisions can be avoided.
 	// see: https://serverfault.com/questions/510657/is-the-64-byte-minimal-ethernet-packet-rule-respected-in-practice
 	tmp := p[:14+len(payload)]
-	if n := len(tmp); n < 60 {
+	if n := len(tmp); n < 60 && cap(p) >= 60 { // pad only when the buffer has room for it
 		tmp = tmp[:60]
 		for n < 60 {
 			tmp[n] = 0x00
